@@ -263,6 +263,12 @@ def _env():
 def run_check(pid, tier, seed, jobs=None, write_evidence=True):
     t0 = time.time()
     prop = load_prop(pid)
+    if getattr(prop, 'NEEDS_DEPS', False) and not os.path.isdir(os.path.join(VERIF, '.deps', 'icontract')):
+        # self-heal: the supplementary contract layer is installed from the offline wheelhouse (never fatal)
+        try:
+            subprocess.run([PY, os.path.join(VERIF, 'tools', 'setup_deps.py')], cwd=VERIF, timeout=300, stdout=subprocess.DEVNULL, stderr=subprocess.DEVNULL)
+        except Exception:
+            pass
     nshards = jobs or getattr(prop, 'SHARDS', {}).get(tier, 16)
     nshards = max(1, min(nshards, 16))
     work = os.path.join(VERIF, '.work', '%s_%s_%d_%d' % (pid, tier, seed, os.getpid()))
